@@ -388,12 +388,17 @@ func diff(a, b map[string][]string, ignore map[string]bool) string {
 
 var servers = []string{"plc1:502", "plc_2:502", "rtu://dev"}
 
+// adversarial target names: concatenating server and unit id without (or with a weak) separator makes them collide
+var collidingServers = []string{"h:502", "h:5021", "h:50", "h:502_1"}
+var collidingUnits = []uint8{1, 11, 21, 2, 12, 211}
+
 func genFields(t *rapid.T, n int, prefix string, nServers int, base int) []modbus.Field {
 	var out []modbus.Field
 	units := []uint8{0, 1, 2, 255, 247, 128}
 	rot := rapid.IntRange(0, len(units)-1).Draw(t, prefix+"unit_rot")
 	units = append(units[rot:], units[:rot]...)
 	nUnits := rapid.IntRange(1, 3).Draw(t, prefix+"nunits")
+	colliding := rapid.IntRange(0, 5).Draw(t, prefix+"colliding_names") == 0
 	for i := 0; i < n; i++ {
 		off := rapid.IntRange(0, 140).Draw(t, "off")
 		if rapid.IntRange(0, 3).Draw(t, "offhot") == 0 {
@@ -407,12 +412,21 @@ func genFields(t *rapid.T, n int, prefix string, nServers int, base int) []modbu
 		f.Address = uint16(a)
 		f.ServerAddress = servers[rapid.IntRange(0, nServers-1).Draw(t, "server")]
 		f.UnitID = units[rapid.IntRange(0, nUnits-1).Draw(t, "unit")]
+		if colliding {
+			f.ServerAddress = rapid.SampledFrom(collidingServers).Draw(t, "cserver")
+			f.UnitID = rapid.SampledFrom(collidingUnits).Draw(t, "cunit")
+		}
 		out = append(out, f)
 		if rapid.IntRange(0, 11).Draw(t, "coilfield") == 0 {
 			out = append(out, modbus.Field{Name: fmt.Sprintf("%scoil%d", prefix, i), ServerAddress: f.ServerAddress, UnitID: f.UnitID, Type: modbus.FieldTypeCoil, Address: f.Address})
 		}
 		if rapid.IntRange(0, 11).Draw(t, "dupdef") == 0 {
 			out = append(out, f) // duplicated definition (same name)
+		}
+		if rapid.IntRange(0, 5).Draw(t, "neardup") == 0 {
+			if nd := fgen.NearDuplicate(t, f, fmt.Sprintf("%s%dn", prefix, i)); int(nd.Address)+fgen.Size(nd) <= 65536 {
+				out = append(out, nd) // (domain: spans do not cross address 65535)
+			}
 		}
 	}
 	return out
